@@ -26,18 +26,18 @@ RULE = ('random axially symmetric prescriptions of spheres and planes only (2-9 
         'surface at or away from the paraxial focus, air or immersed) from the constraint-based generator, plus '
         'every bundled sample made of conic-free spheres and planes; a case is non-trivial when |sum S_I| (oracle) is '
         'above its float floor and the lens has >= 2 powered surfaces; distinct = distinct case hash')
-TIERS = {'quick': dict(shards=16, cases=22), 'thorough': dict(shards=16, cases=700)}
-MIN_NONTRIVIAL = {'quick': 200, 'thorough': 5000}
+TIERS = {'quick': dict(shards=16, cases=18), 'thorough': dict(shards=16, cases=700)}
+MIN_NONTRIVIAL = {'quick': 180, 'thorough': 5000}
 _PER = ('TSC', 'CC', 'TAC', 'TPC', 'DC', 'TAchC', 'TchC')
-MIN_EVALS = {c: {'quick': 250, 'thorough': 5000} for c in _PER + ('seidel-sums',)}
+MIN_EVALS = {c: {'quick': 200, 'thorough': 5000} for c in _PER + ('seidel-sums',)}
 MIN_EVALS.update({
-    'TCC=3CC': {'quick': 500, 'thorough': 10000},
-    "longitudinal=-transverse/u'": {'quick': 2000, 'thorough': 40000},
-    'sum-is-sum': {'quick': 5000, 'thorough': 100000},
-    'accessor-vs-third_order': {'quick': 3000, 'thorough': 60000},
-    'operand-vs-accessor': {'quick': 6000, 'thorough': 120000},
-    'stop-shift-invariance': {'quick': 250, 'thorough': 6000},
-    'real-ray-limit': {'quick': 80, 'thorough': 2000},
+    'TCC=3CC': {'quick': 400, 'thorough': 10000},
+    "longitudinal=-transverse/u'": {'quick': 1600, 'thorough': 40000},
+    'sum-is-sum': {'quick': 4000, 'thorough': 100000},
+    'accessor-vs-third_order': {'quick': 2500, 'thorough': 60000},
+    'operand-vs-accessor': {'quick': 5000, 'thorough': 120000},
+    'stop-shift-invariance': {'quick': 200, 'thorough': 6000},
+    'real-ray-limit': {'quick': 60, 'thorough': 2000},
 })
 ASSUMPTIONS = [
     'the oracle evaluates Welford\'s surface contributions on the library\'s own paraxial marginal/chief rays, radii and '
